@@ -754,7 +754,7 @@ pub fn cleanup_scratch() {
 impl Db {
     /// Opens a database on `dir` (created fresh when None and opts.on_disk).
     pub fn open(opts: &DbOpts, dir: Option<PathBuf>) -> (Db, Outcome<()>) {
-        let ms = std::env::var("LVMC_DEADLINE_MS").ok().and_then(|s| s.parse().ok()).unwrap_or(4000);
+        let ms = std::env::var("LVMC_DEADLINE_MS").ok().and_then(|s| s.parse().ok()).unwrap_or(10000);
         Db::open_with_deadline(opts, dir, Duration::from_millis(ms))
     }
 
@@ -808,6 +808,8 @@ impl Db {
                 // the executor thread is stuck inside the database: abandon it
                 self.dead = true;
                 retire_executor();
+                // a stuck database may spin; do not let it starve the following cases on this CPU
+                crate::runner::unpin_cpu();
                 Outcome::Hang
             }
         }
